@@ -1,13 +1,13 @@
 SPECIFICATION MSpec
 CONSTANTS
-  Acc = {"a", "b", "c"}
-  Members = {"a", "b", "c"}
+  Acc = {"a", "b"}
+  Members = {"a", "b"}
   MaxMsgs = 2
   MaxFaults = 1
-  MaxOpen = 0
+  MaxOpen = 1
   MaxRetries = 1
   ServerAcks = FALSE
-  MaxReorder = 1
+  MaxReorder = 2
   ReshowAllowed = FALSE
 CONSTRAINT Bounded
 INVARIANT AtMostOnce
